@@ -109,7 +109,10 @@ func (self *Analyzer) triggerStatement(node pAst.TriggerStatement) ast.AnalyzedT
 		}
 	}
 
-	if self.currentModule.CurrentFunction.FnType.Kind() == normalFunctionKind {
+	if self.currentModule.CurrentFunction == nil {
+		// trigger statement inside a global initialiser, i.e. outside of any function
+		callbackFn.Used = true
+	} else if self.currentModule.CurrentFunction.FnType.Kind() == normalFunctionKind {
 		currFn := self.currentModule.CurrentFunction.FnType.(normalFunction)
 		if callbackFn.FnType.Kind() == normalFunctionKind {
 			toBeCalled := callbackFn.FnType.(normalFunction)
